@@ -1,6 +1,8 @@
 (* C06, completeness under positional comparison: every leaf of either
    document is covered by an entry at its location or at an ancestor's --
-   unless a null scalar faces a container with content (finding F3). *)
+   unless one DOCUMENT is null (the root: "no document") and the other a
+   container with content (what is left of finding F3 after its repair: a null
+   that has a parent is now deleted / added like any other scalar). *)
 From Coq Require Import List Ascii String ZArith NArith Bool Arith Lia Permutation.
 From YP Require Import Outcome PyStr PyVal Doc Diff C06Spec DiffBase DiffEq DiffKeys DiffPos.
 Import ListNotations.
@@ -80,20 +82,6 @@ Proof.
     exists e. repeat split; auto. eapply is_prefix_swap; eauto.
 Qed.
 
-(* ---- the guard is inherited by facing children ---- *)
-Lemma faces_child : forall l r ref c d,
-  faces_ok l r -> child l ref = Some c -> child r ref = Some d -> faces_ok c d.
-Proof.
-  intros l r ref c d H Hc Hd l' a b Ha Hb.
-  apply (H (ref :: l')); simpl; [rewrite Hc | rewrite Hd]; assumption.
-Qed.
-
-Lemma faces_leaves : forall i v j w, faces_ok (NLeaf i v) (NLeaf j w).
-Proof.
-  intros i v j w l' a b Ha Hb. destruct l'; simpl in *; [|discriminate].
-  inversion Ha; inversion Hb; subst. unfold clash_ok; simpl. split; intros [_ X]; discriminate.
-Qed.
-
 Lemma In_rev_map_app {A B} (f : A -> B) : forall l acc x, In x l -> In (f x) (rev (map f l) ++ acc).
 Proof. intros. apply in_or_app. left. apply in_rev. rewrite rev_involutive. apply in_map. auto. Qed.
 
@@ -124,39 +112,46 @@ Proof.
 Qed.
 
 Lemma cmp_has_left : forall p q a b, has_left (cmp_entry p q a b) = true.
-Proof. intros. unfold cmp_entry, has_left. simpl. destruct (node_eq a b); reflexivity. Qed.
+Proof. intros. unfold cmp_entry, has_left. simpl. destruct (val_eq a b); reflexivity. Qed.
 Lemma cmp_has_right : forall p q a b, has_right (cmp_entry p q a b) = true.
-Proof. intros. unfold cmp_entry, has_right. simpl. destruct (node_eq a b); reflexivity. Qed.
+Proof. intros. unfold cmp_entry, has_right. simpl. destruct (val_eq a b); reflexivity. Qed.
 
 Section Cover.
   Variable path_eq : string -> string -> outcome bool.
   Variable cfg : dcfg.
   Hypothesis Hpos : positional cfg.
 
+  (* the guard concerns the root call only (no parent) *)
+  Definition root_ok (par : option node) (l r : node) : Prop :=
+    par = None -> clash_ok l r /\ clash_ok r l.
+
   Definition rec_cov (rec : rec_t) : Prop :=
     forall path q l r par pref a a',
-      wf_doc l = true -> wf_doc r = true -> faces_ok l r ->
+      wf_doc l = true -> wf_doc r = true -> root_ok par l r ->
       rec path q l r par pref a = Ok a' ->
       incl a a' /\ lcov q l a' /\ rcov q r a'.
 
+  Lemma root_ok_child : forall p l r, root_ok (Some p) l r.
+  Proof. intros p l r H. discriminate. Qed.
+
   (* ---- _purge_document / _add_everything ---- *)
-  Lemma purge_incl : forall path q l a, incl a (purge path q l a).
+  Lemma purge_incl : forall path q l root a, incl a (purge path q l root a).
   Proof.
-    intros path q l a. destruct l as [i v| | |]; simpl; try apply incl_app_acc.
-    destruct v; simpl; auto using incl_refl, incl_tl.
+    intros path q l root a. destruct l as [i v| | |]; simpl; try apply incl_app_acc.
+    destruct v, root; simpl; auto using incl_refl, incl_tl.
   Qed.
-  Lemma add_everything_incl : forall path q l a, incl a (add_everything path q l a).
+  Lemma add_everything_incl : forall path q l root a, incl a (add_everything path q l root a).
   Proof.
-    intros path q l a. destruct l as [i v| | |]; simpl; try apply incl_app_acc.
-    destruct v; simpl; auto using incl_refl, incl_tl.
+    intros path q l root a. destruct l as [i v| | |]; simpl; try apply incl_app_acc.
+    destruct v, root; simpl; auto using incl_refl, incl_tl.
   Qed.
 
-  Lemma purge_cov : forall path q l a, wf_doc l = true -> is_null_leaf l = false ->
-    lcov q l (purge path q l a).
+  Lemma purge_cov : forall path q l root a, wf_doc l = true -> is_null_leaf l && root = false ->
+    lcov q l (purge path q l root a).
   Proof.
-    intros path q l a Hwf Hnn. destruct l as [i v|i kvs|i els|i els].
-    - assert (E : purge path q (NLeaf i v) a = del_entry path q (NLeaf i v) :: a).
-      { destruct v; simpl in *; auto; discriminate. }
+    intros path q l root a Hwf Hnn. destruct l as [i v|i kvs|i els|i els].
+    - assert (E : purge path q (NLeaf i v) root a = del_entry path q (NLeaf i v) :: a).
+      { destruct v, root; simpl in *; auto; discriminate. }
       rewrite E. eapply lcov_whole; [left; reflexivity | reflexivity | reflexivity].
     - destruct (wf_map_inv _ _ Hwf) as [Hp _]. apply lcov_children; auto.
       intros ref c Hc. destruct ref; simpl in Hc; try discriminate.
@@ -181,12 +176,12 @@ Section Cover.
         reflexivity.
   Qed.
 
-  Lemma add_everything_cov : forall path q l a, wf_doc l = true -> is_null_leaf l = false ->
-    rcov q l (add_everything path q l a).
+  Lemma add_everything_cov : forall path q l root a, wf_doc l = true -> is_null_leaf l && root = false ->
+    rcov q l (add_everything path q l root a).
   Proof.
-    intros path q l a Hwf Hnn. destruct l as [i v|i kvs|i els|i els].
-    - assert (E : add_everything path q (NLeaf i v) a = add_entry path q (NLeaf i v) :: a).
-      { destruct v; simpl in *; auto; discriminate. }
+    intros path q l root a Hwf Hnn. destruct l as [i v|i kvs|i els|i els].
+    - assert (E : add_everything path q (NLeaf i v) root a = add_entry path q (NLeaf i v) :: a).
+      { destruct v, root; simpl in *; auto; discriminate. }
       rewrite E. eapply rcov_whole; [left; reflexivity | reflexivity | reflexivity].
     - destruct (wf_map_inv _ _ Hwf) as [Hp _]. apply rcov_children; auto.
       intros ref c Hc. destruct ref; simpl in Hc; try discriminate.
@@ -211,63 +206,68 @@ Section Cover.
         reflexivity.
   Qed.
 
-  Lemma purge_nocontent : forall path q l a, has_content l = false -> is_leaf l = false -> purge path q l a = a.
-  Proof. intros path q l a H1 H2. destruct l as [|i [|]|i [|]|i [|]]; simpl in *; auto; discriminate. Qed.
-  Lemma add_everything_nocontent : forall path q l a, has_content l = false -> is_leaf l = false ->
-    add_everything path q l a = a.
-  Proof. intros path q l a H1 H2. destruct l as [|i [|]|i [|]|i [|]]; simpl in *; auto; discriminate. Qed.
-  Lemma purge_null : forall path q l a, is_null_leaf l = true -> purge path q l a = a.
+  Lemma purge_nocontent : forall path q l root a, has_content l = false -> is_leaf l = false -> purge path q l root a = a.
+  Proof. intros path q l root a H1 H2. destruct l as [|i [|]|i [|]|i [|]]; simpl in *; auto; discriminate. Qed.
+  Lemma add_everything_nocontent : forall path q l root a, has_content l = false -> is_leaf l = false ->
+    add_everything path q l root a = a.
+  Proof. intros path q l root a H1 H2. destruct l as [|i [|]|i [|]|i [|]]; simpl in *; auto; discriminate. Qed.
+  Lemma purge_null : forall path q l a, is_null_leaf l = true -> purge path q l true a = a.
   Proof. intros path q l a H. destruct l as [i v| | |]; simpl in *; try discriminate. destruct v; auto; discriminate. Qed.
-  Lemma add_everything_null : forall path q l a, is_null_leaf l = true -> add_everything path q l a = a.
+  Lemma add_everything_null : forall path q l a, is_null_leaf l = true -> add_everything path q l true a = a.
   Proof. intros path q l a H. destruct l as [i v| | |]; simpl in *; try discriminate. destruct v; auto; discriminate. Qed.
 
   (* the type-clash branch of _diff_between *)
-  Lemma clash_cov : forall path q l r a a',
-    wf_doc l = true -> wf_doc r = true -> faces_ok l r ->
+  Lemma clash_cov : forall path q l r par a a',
+    wf_doc l = true -> wf_doc r = true -> root_ok par l r ->
     (is_leaf l = false \/ is_leaf r = false) ->
-    (let a1 := add_everything path q r (purge path q l a) in
+    (let root := match par with None => true | Some _ => false end in
+     let a1 := add_everything path q r root (purge path q l root a) in
      if Nat.eqb (List.length a1) (List.length a)
      then Ok (mkentry AChange path q l r :: a1) else Ok a1) = Ok a' ->
     incl a a' /\ lcov q l a' /\ rcov q r a'.
   Proof.
-    intros path q l r a a' Hwl Hwr Hf Hk H. cbv zeta in H.
-    set (a1 := add_everything path q r (purge path q l a)) in *.
+    intros path q l r par a a' Hwl Hwr Hf Hk H. cbv zeta in H.
+    set (root := match par with None => true | Some _ => false end) in *.
+    set (a1 := add_everything path q r root (purge path q l root a)) in *.
     assert (I1 : incl a a1).
     { unfold a1. eapply incl_tran; [apply purge_incl | apply add_everything_incl]. }
-    destruct (Hf [] l r eq_refl eq_refl) as [C1 C2].
-    assert (HL : is_null_leaf l = true -> a1 = a).
-    { intros Hn. unfold a1. rewrite (purge_null _ _ _ _ Hn).
+    assert (HL : is_null_leaf l && root = true -> a1 = a).
+    { intros Hn. apply andb_true_iff in Hn. destruct Hn as [Hn Hr].
+      assert (par = None) by (destruct par; [discriminate | reflexivity]).
+      destruct (Hf H0) as [C1 C2]. unfold a1. rewrite Hr. rewrite (purge_null _ _ _ _ Hn).
       destruct (has_content r) eqn:Hc; [exfalso; apply C1; auto|].
       apply add_everything_nocontent; auto.
       destruct Hk as [Hk|Hk]; auto. destruct l; simpl in *; discriminate. }
-    assert (HR : is_null_leaf r = true -> a1 = a).
-    { intros Hn. unfold a1. rewrite (add_everything_null _ _ _ _ Hn).
+    assert (HR : is_null_leaf r && root = true -> a1 = a).
+    { intros Hn. apply andb_true_iff in Hn. destruct Hn as [Hn Hr].
+      assert (par = None) by (destruct par; [discriminate | reflexivity]).
+      destruct (Hf H0) as [C1 C2]. unfold a1. rewrite Hr. rewrite (add_everything_null _ _ _ _ Hn).
       destruct (has_content l) eqn:Hc; [exfalso; apply C2; auto|].
       apply purge_nocontent; auto.
       destruct Hk as [Hk|Hk]; auto. destruct r; simpl in *; discriminate. }
-    assert (CL : is_null_leaf l = false -> lcov q l a1).
+    assert (CL : is_null_leaf l && root = false -> lcov q l a1).
     { intros Hn. unfold a1. eapply lcov_mono; [apply add_everything_incl | apply purge_cov; auto]. }
-    assert (CR : is_null_leaf r = false -> rcov q r a1).
+    assert (CR : is_null_leaf r && root = false -> rcov q r a1).
     { intros Hn. unfold a1. apply add_everything_cov; auto. }
     destruct (Nat.eqb (List.length a1) (List.length a)) eqn:El; inversion H; subst; clear H.
     - split; [apply incl_tl; exact I1|]. split.
       + eapply lcov_whole; [left; reflexivity | reflexivity | reflexivity].
       + eapply rcov_whole; [left; reflexivity | reflexivity | reflexivity].
     - split; [exact I1|]. split.
-      + destruct (is_null_leaf l) eqn:Hn; [|auto].
+      + destruct (is_null_leaf l && root) eqn:Hn; [|auto].
         rewrite (HL eq_refl), Nat.eqb_refl in El. discriminate.
-      + destruct (is_null_leaf r) eqn:Hn; [|auto].
+      + destruct (is_null_leaf r && root) eqn:Hn; [|auto].
         rewrite (HR eq_refl), Nat.eqb_refl in El. discriminate.
   Qed.
 
   (* ---- mappings ---- *)
   Lemma dicts_cov : forall rec path q i lkvs j rkvs a a',
     rec_cov rec ->
-    wf_doc (NMap i lkvs) = true -> wf_doc (NMap j rkvs) = true -> faces_ok (NMap i lkvs) (NMap j rkvs) ->
+    wf_doc (NMap i lkvs) = true -> wf_doc (NMap j rkvs) = true ->
     diff_dicts rec path q (NMap i lkvs) (NMap j rkvs) lkvs rkvs a = Ok a' ->
     incl a a' /\ lcov q (NMap i lkvs) a' /\ rcov q (NMap j rkvs) a'.
   Proof.
-    intros rec path q i lkvs j rkvs a a' Hrec HwL HwR Hf H.
+    intros rec path q i lkvs j rkvs a a' Hrec HwL HwR H.
     destruct (wf_map_inv _ _ HwL) as [Lp [Ln Lw]].
     destruct (wf_map_inv _ _ HwR) as [Rp [Rn Rw]].
     unfold diff_dicts in H.
@@ -296,7 +296,7 @@ Section Cover.
           assert (Hcr : child (NMap j rkvs) (RKey (key_val k)) = Some rv).
           { simpl. apply assoc_key_in; auto. }
           destruct (map_get_in _ _ _ Eg) as [kn Hkn].
-          destruct (Hrec _ _ _ _ _ _ _ _ (Lw _ Hkn) (Rw _ Hin) (faces_child _ _ _ _ _ Hf Hcl Hcr) Hstep)
+          destruct (Hrec _ _ _ _ _ _ _ _ (Lw _ Hkn) (Rw _ Hin) (root_ok_child _ _ _) Hstep)
             as [I2 [C2l C2r]].
           split; [eapply incl_tran; eauto|].
           intros kv' Hkv' lv' Eg'. apply in_app_or in Hkv'. destruct Hkv' as [Hkv'|[<-|[]]].
@@ -386,8 +386,7 @@ Section Cover.
         assert (Pm : plain_leaf (set_find k lels) = true) by (rewrite forallb_forall in Lp; auto).
         destruct (plain_leaf_inv _ Pm) as [mi [mv [Em _]]].
         destruct (plain_leaf_inv _ Hk) as [ki [kv [Ek _]]].
-        assert (Hfc : faces_ok (set_find k lels) k) by (rewrite Em, Ek; apply faces_leaves).
-        destruct (Hrec _ _ _ _ _ _ _ _ (wf_plain_leaf _ Pm) (wf_plain_leaf _ Hk) Hfc Hstep) as [I2 [C2l C2r]].
+        destruct (Hrec _ _ _ _ _ _ _ _ (wf_plain_leaf _ Pm) (wf_plain_leaf _ Hk) (root_ok_child _ _ _) Hstep) as [I2 [C2l C2r]].
         split; [eapply incl_tran; eauto|].
         intros k' Hk' Hs'. apply in_app_or in Hk'. destruct Hk' as [Hk'|[<-|[]]].
         + destruct (Cb k' Hk' Hs') as [X Y]. split; [eapply lcov_mono | eapply rcov_mono]; eauto.
@@ -443,14 +442,13 @@ Section Cover.
     rec_cov rec ->
     forall lels idx rels a a',
       (forall x, In x lels -> wf_doc x = true) -> (forall x, In x rels -> wf_doc x = true) ->
-      (forall k x y, nth_error lels k = Some x -> nth_error rels k = Some y -> faces_ok x y) ->
       zip_go rec deep path q r0 idx lels rels a = Ok a' ->
       incl a a' /\
       (forall k x, nth_error lels k = Some x -> lcov (q ++ [RIdx (idx + k)]) x a') /\
       (forall k y, nth_error rels k = Some y -> rcov (q ++ [RIdx (idx + k)]) y a').
   Proof.
     intros rec deep path q r0 Hrec.
-    induction lels as [|le lr IH]; simpl; intros idx rels a a' HwL HwR Hf H.
+    induction lels as [|le lr IH]; simpl; intros idx rels a a' HwL HwR H.
     - inversion H; subst. split; [apply incl_app_acc|]. split.
       + intros k x Hk. destruct k; discriminate.
       + intros k y Hk.
@@ -460,9 +458,7 @@ Section Cover.
                               (enumerate_from idx rels) a (idx + k, y)).
         apply enumerate_from_in; auto.
     - destruct rels as [|re rr].
-      + assert (Hf' : forall k x y, nth_error lr k = Some x -> nth_error (@nil node) k = Some y -> faces_ok x y).
-        { intros k x y _ Hy. destruct k; discriminate. }
-        destruct (IH (S idx) [] _ _ (fun x Hx => HwL x (or_intror Hx)) HwR Hf' H) as [I1 [C1 C2]].
+      + destruct (IH (S idx) [] _ _ (fun x Hx => HwL x (or_intror Hx)) HwR H) as [I1 [C1 C2]].
         split; [eapply incl_tran; [apply incl_tl, incl_refl | exact I1]|]. split.
         * intros k x Hk. destruct k as [|k]; simpl in Hk.
           -- inversion Hk; subst. rewrite Nat.add_0_r.
@@ -471,16 +467,14 @@ Section Cover.
           -- replace (idx + S k) with (S idx + k) by lia. apply C1; auto.
         * intros k y Hk. destruct k; discriminate.
       + match type of H with (bind ?F _ = _) => destruct F as [a1| |] eqn:EF end; simpl in H; try discriminate.
-        assert (Hf' : forall k x y, nth_error lr k = Some x -> nth_error rr k = Some y -> faces_ok x y).
-        { intros k x y Hx Hy. apply (Hf (S k) x y); auto. }
-        destruct (IH (S idx) rr _ _ (fun x Hx => HwL x (or_intror Hx)) (fun x Hx => HwR x (or_intror Hx)) Hf' H)
+        destruct (IH (S idx) rr _ _ (fun x Hx => HwL x (or_intror Hx)) (fun x Hx => HwR x (or_intror Hx)) H)
           as [I1 [C1 C2]].
         assert (St : incl a a1 /\ lcov (q ++ [RIdx idx]) le a1 /\ rcov (q ++ [RIdx idx]) re a1).
         { destruct deep.
           - eapply Hrec; [ | | | exact EF].
             + apply HwL; left; reflexivity.
             + apply HwR; left; reflexivity.
-            + apply (Hf 0 le re); reflexivity.
+            + apply root_ok_child.
           - inversion EF; subst. split; [apply incl_tl, incl_refl|]. split.
             + eapply lcov_whole; [left; reflexivity | apply cmp_has_left | reflexivity].
             + eapply rcov_whole; [left; reflexivity | apply cmp_has_right | reflexivity]. }
@@ -494,19 +488,15 @@ Section Cover.
           -- replace (idx + S k) with (S idx + k) by lia. apply C2; auto.
   Qed.
 
-  Lemma seq_faces : forall i lels j rels, faces_ok (NSeq i lels) (NSeq j rels) ->
-    forall k x y, nth_error lels k = Some x -> nth_error rels k = Some y -> faces_ok x y.
-  Proof. intros i lels j rels Hf k x y Hx Hy. eapply (faces_child _ _ (RIdx k)); eauto. Qed.
-
   Lemma zip_seq_cov : forall rec deep path q i lels j rels a a',
     rec_cov rec ->
-    wf_doc (NSeq i lels) = true -> wf_doc (NSeq j rels) = true -> faces_ok (NSeq i lels) (NSeq j rels) ->
+    wf_doc (NSeq i lels) = true -> wf_doc (NSeq j rels) = true ->
     zip_go rec deep path q (NSeq j rels) 0 lels rels a = Ok a' ->
     incl a a' /\ lcov q (NSeq i lels) a' /\ rcov q (NSeq j rels) a'.
   Proof.
-    intros rec deep path q i lels j rels a a' Hrec HwL HwR Hf H.
+    intros rec deep path q i lels j rels a a' Hrec HwL HwR H.
     destruct (zip_cov rec deep path q (NSeq j rels) Hrec lels 0 rels a a'
-                (wf_seq_inv _ _ HwL) (wf_seq_inv _ _ HwR) (seq_faces _ _ _ _ Hf) H) as [I1 [C1 C2]].
+                (wf_seq_inv _ _ HwL) (wf_seq_inv _ _ HwR) H) as [I1 [C1 C2]].
     split; auto. split.
     - apply lcov_children; auto. intros ref c Hc. destruct ref; simpl in Hc; try discriminate.
       exists (RIdx n). split; [reflexivity|]. apply (C1 n c Hc).
@@ -516,11 +506,11 @@ Section Cover.
 
   Lemma lists_cov : forall rec path q i lels j rels par pref a a',
     rec_cov rec ->
-    wf_doc (NSeq i lels) = true -> wf_doc (NSeq j rels) = true -> faces_ok (NSeq i lels) (NSeq j rels) ->
-    diff_lists path_eq cfg rec path q (NSeq j rels) lels rels par pref a = Ok a' ->
+    wf_doc (NSeq i lels) = true -> wf_doc (NSeq j rels) = true ->
+    diff_lists path_eq cfg rec path q (NSeq i lels) (NSeq j rels) lels rels par pref a = Ok a' ->
     incl a a' /\ lcov q (NSeq i lels) a' /\ rcov q (NSeq j rels) a'.
   Proof.
-    intros rec path q i lels j rels par pref a a' Hrec HwL HwR Hf H.
+    intros rec path q i lels j rels par pref a a' Hrec HwL HwR H.
     destruct Hpos as [Hp1 Hp2].
     assert (Harr : forall deep nc,
       diff_arrays path_eq cfg rec deep path q (NSeq j rels) lels rels nc a = Ok a' ->
@@ -533,6 +523,10 @@ Section Cover.
     { intros nc H'. unfold diff_aoh in H'.
       destruct (Hp2 nc) as [E|E]; rewrite E in H'; simpl in H'; eapply Harr; eauto. }
     unfold diff_lists in H.
+    destruct (negb _).
+    { inversion H; subst. split; [apply incl_tl, incl_tl, incl_refl|]. split.
+      + eapply lcov_whole; [right; left; reflexivity | reflexivity | reflexivity].
+      + eapply rcov_whole; [left; reflexivity | reflexivity | reflexivity]. }
     destruct rels as [|[ | | | ] rr]; try (eapply Harr; eauto; fail).
     eapply Haoh; eauto.
   Qed.
@@ -541,7 +535,7 @@ Section Cover.
   Proof.
     intros rec Hrec path q l r par pref a a' HwL HwR Hf H.
     destruct l as [i v|i lkvs|i lels|i lels], r as [j w|j rkvs|j rels|j rels]; simpl in H;
-      try (eapply clash_cov; [exact HwL | exact HwR | exact Hf | simpl; auto | exact H]).
+      try (eapply (clash_cov path q _ _ par); [exact HwL | exact HwR | exact Hf | simpl; auto | exact H]).
     - inversion H; subst. unfold diff_scalars. split; [apply incl_tl, incl_refl|]. split.
       + eapply lcov_whole; [left; reflexivity | apply cmp_has_left | reflexivity].
       + eapply rcov_whole; [left; reflexivity | apply cmp_has_right | reflexivity].
@@ -558,13 +552,13 @@ Section Cover.
   Qed.
 
   Theorem compare_to_covers : forall L R es,
-    wf_doc L = true -> wf_doc R = true -> faces_ok L R ->
+    wf_doc L = true -> wf_doc R = true -> clash_ok L R /\ clash_ok R L ->
     compare_to path_eq cfg L R = Ok es -> covers_left L es /\ covers_right R es.
   Proof.
     intros L R es HwL HwR Hf H. unfold compare_to in H.
     match type of H with (bind ?F _ = _) => destruct F as [acc| |] eqn:EF end; simpl in H; try discriminate.
     inversion H; subst.
-    destruct (between_cov _ _ _ _ _ _ _ _ _ HwL HwR Hf EF) as [_ [C1 C2]].
+    destruct (between_cov _ _ _ _ _ _ _ _ _ HwL HwR (fun _ => Hf) EF) as [_ [C1 C2]].
     split; intros l i v Hl.
     - destruct (C1 l i v Hl) as [e [He R1]]. exists e. split; [apply -> in_rev; exact He | exact R1].
     - destruct (C2 l i v Hl) as [e [He R1]]. exists e. split; [apply -> in_rev; exact He | exact R1].
@@ -575,76 +569,28 @@ End Cover.
 Lemma clash_b_ok : forall a b, clash_b a b = true -> clash_ok a b.
 Proof. unfold clash_b, clash_ok. intros a b H [X Y]. rewrite X, Y in H. discriminate. Qed.
 
-Lemma faces_b_unfold : forall a b, faces_b a b = true -> clash_ok a b /\ clash_ok b a.
-Proof.
-  intros a b H. destruct a, b; simpl in H;
-    repeat (apply andb_true_iff in H; destruct H as [H ?]); split; apply clash_b_ok; auto.
-Qed.
-
 Lemma assoc_key_congr : forall kvs x y, py_eq x y = true -> assoc_key x kvs = assoc_key y kvs.
 Proof.
   induction kvs as [|[kn v] r IH]; simpl; intros x y H; auto.
   destruct kn; auto. rewrite (py_eq_congr_r _ _ v0 H). rewrite (IH _ _ H). reflexivity.
 Qed.
 
-Lemma assoc_key_item : forall kvs x c, assoc_key x kvs = Some c ->
-  exists i kv, In (NLeaf i kv, c) kvs /\ py_eq kv x = true.
-Proof.
-  induction kvs as [|[kn v] r IH]; simpl; intros x c H; [discriminate|].
-  destruct kn as [i kv| | |]; try (destruct (IH _ _ H) as [i' [kv' [A B]]]; exists i', kv'; auto; fail).
-  destruct (py_eq kv x) eqn:E.
-  - inversion H; subst. exists i, kv. auto.
-  - destruct (IH _ _ H) as [i' [kv' [A B]]]. exists i', kv'; auto.
-Qed.
-
-Lemma faces_b_child : forall a b ref c d,
-  faces_b a b = true -> child a ref = Some c -> child b ref = Some d -> faces_b c d = true.
-Proof.
-  intros a b ref c d H Hc Hd.
-  destruct a as [i v|i kvs|i els|i els], b as [j w|j kvs'|j els'|j els'], ref as [x|n|x];
-    simpl in Hc, Hd; try discriminate.
-  - (* maps *)
-    simpl in H.
-    destruct (assoc_key_item _ _ _ Hc) as [ki [kv [Hin E]]].
-    rewrite <- (assoc_key_congr kvs' _ _ E) in Hd.
-    clear Hc. induction kvs as [|kv0 r IH]; simpl in Hin; [contradiction|].
-    simpl in H. apply andb_true_iff in H. destruct H as [H0 Hr].
-    destruct Hin as [->|Hin]; [|auto].
-    simpl in H0. rewrite Hd in H0. exact H0.
-  - (* sequences *)
-    simpl in H.
-    revert els' n Hc Hd H. induction els as [|x r IH]; intros els' n Hc Hd H; destruct n; simpl in Hc; try discriminate.
-    + destruct els' as [|y r']; simpl in Hd; try discriminate.
-      inversion Hc; inversion Hd; subst. apply andb_true_iff in H. tauto.
-    + destruct els' as [|y r']; simpl in Hd; try discriminate.
-      apply andb_true_iff in H. destruct H as [_ H]. eapply IH; eauto.
-  - (* sets: members are scalars *)
-    assert (Lc : forall l0 c0, find_member x l0 = Some c0 -> exists ci cv, c0 = NLeaf ci cv).
-    { induction l0 as [|e r IH]; simpl; intros c0 H0; [discriminate|].
-      destruct e; eauto. destruct (py_eq v x); eauto. inversion H0; eauto. }
-    destruct (Lc _ _ Hc) as [ci [cv ->]]. destruct (Lc _ _ Hd) as [di [dv ->]].
-    destruct cv, dv; reflexivity.
-Qed.
-
-Theorem faces_b_ok : forall a b, faces_b a b = true -> faces_ok a b.
-Proof.
-  intros a b H l. revert a b H. induction l as [|ref l IH]; intros a b H x y Hx Hy; simpl in Hx, Hy.
-  - inversion Hx; inversion Hy; subst. apply faces_b_unfold; auto.
-  - destruct (child a ref) as [c|] eqn:Ec; try discriminate.
-    destruct (child b ref) as [d|] eqn:Ed; try discriminate.
-    eapply IH; [eapply faces_b_child; eauto | exact Hx | exact Hy].
-Qed.
-
 Lemma positional_covers :
   forall path_eq cfg L R es,
-    positional cfg -> wf_doc L = true -> wf_doc R = true -> faces_b L R = true ->
+    positional cfg -> wf_doc L = true -> wf_doc R = true -> root_guard L R = true ->
     compare_to path_eq cfg L R = Ok es -> covers_left L es /\ covers_right R es.
 Proof.
   intros path_eq cfg L R es Hp HL HR Hf H.
-  eapply compare_to_covers; eauto. apply faces_b_ok; auto.
+  eapply compare_to_covers; eauto.
+  unfold root_guard in Hf. apply andb_true_iff in Hf. destruct Hf as [F1 F2].
+  split; apply clash_b_ok; assumption.
 Qed.
 
-(* ---- finding F3: the refutation witness of the unguarded statement ---- *)
+(* the guard holds whenever neither document is null *)
+Lemma root_guard_nonnull : forall L R, is_null_leaf L = false -> is_null_leaf R = false -> root_guard L R = true.
+Proof. intros L R H1 H2. unfold root_guard, clash_b. rewrite H1, H2. reflexivity. Qed.
+
+(* ---- finding F3 ---- *)
 Definition f3_leaf (o : N) (v : pyval) : node := NLeaf (mkinfo o None false None) v.
 Definition f3_L : node := NMap (mkinfo 0 None true None) [(f3_leaf 1 (PStr "a"), f3_leaf 2 PNone)].
 Definition f3_R : node :=
@@ -652,11 +598,14 @@ Definition f3_R : node :=
        [(f3_leaf 1 (PStr "a"), NMap (mkinfo 4 None true None) [(f3_leaf 5 (PStr "b"), f3_leaf 6 (PInt 1))])].
 Definition f3_cfg : dcfg := mkdcfg false [] [] None None None None.
 
+(* what is left of it: a null DOCUMENT against a container with content *)
+Definition f3_root_R : node := NMap (mkinfo 3 None true None) [(f3_leaf 5 (PStr "b"), f3_leaf 6 (PInt 1))].
+
 Lemma complete_refuted_witness :
   exists L R es, wf_doc L = true /\ wf_doc R = true /\
     compare_to path_eq_real f3_cfg L R = Ok es /\ ~ covers_left L es.
 Proof.
-  exists f3_L, f3_R. eexists. split; [reflexivity|]. split; [reflexivity|]. split; [vm_compute; reflexivity|].
-  intros C. destruct (C [RKey (PStr "a")] (mkinfo 2 None false None) PNone eq_refl) as [e [He [Hl _]]].
+  exists (f3_leaf 2 PNone), f3_root_R. eexists. split; [reflexivity|]. split; [reflexivity|]. split; [vm_compute; reflexivity|].
+  intros C. destruct (C [] (mkinfo 2 None false None) PNone eq_refl) as [e [He [Hl _]]].
   destruct He as [<-|[]]. discriminate Hl.
 Qed.
